@@ -320,6 +320,8 @@ impl OrientedCircles {
         };
 
         while total < distance {
+            #[cfg(feature = "verif")]
+            crate::verif::tick();
             let c = &self.circles[i];
             if let Some(last) = points.last() {
                 total += dist(last, &c.center());
